@@ -180,6 +180,31 @@ def run_case(ctx, g, rng):
             for u in spec.all_u(r):
                 call(res.compress, u + "1")
             call(res.expand, r.prefix + res.delimiter + "1")
+        if g % 3 == 0:
+            # reconciliation results are converters like any other: a second call on the RESULT, keyed by what the first
+            # call introduced (and by what it turned into a synonym), is judged on its own against the result's records
+            # (seed C12-O: records of a result that remember what they listed before the call)
+            recs2 = list(spec.snapshot(res))
+            if recs2:
+                introduced = [v for v in m.values() if any(v in spec.all_u(r) for r in recs2)]
+                r2 = rng.choice(recs2)
+                S.counters["wl:second-call-on-a-result"] += 1
+                if rng.random() < 0.5:
+                    keys2 = (introduced or [r2.uri_prefix])[:2] + [rng.choice(spec.all_u(r2))]
+                    call(curies.remap_uri_prefixes, res, {k2: f"http://second/{j}/" for j, k2 in enumerate(dict.fromkeys(keys2))})
+                else:
+                    owners = [r.prefix for r in recs2 if any(v in spec.all_u(r) for v in introduced)] or [r2.prefix]
+                    call(curies.rewire, res, {owners[0]: "http://second/0/", rng.choice(spec.all_p(r2)): rng.choice(spec.all_u(r2))}
+                         if owners[0] not in spec.all_p(r2) else {owners[0]: "http://second/0/"})
+    if g % 3 == 1 and recs and d not in "zzrenamed":
+        # ... and the other way round: the converter handed to remap_uri_prefixes / rewire is itself the result of a
+        # CURIE-side remapping, keyed by the name that remapping introduced
+        r0 = rng.choice(recs)
+        o1 = call(curies.remap_curie_prefixes, c, {r0.prefix: "zzrenamed"})
+        if o1[0] == "ret":
+            S.counters["wl:called-on-the-result-of-a-curie-remapping"] += 1
+            call(curies.rewire, o1[1], {"zzrenamed": "http://second/1/"})
+            call(curies.remap_uri_prefixes, o1[1], {r0.uri_prefix: "http://second/2/"})
     if g % 499 == 0:
         probe.sample({"operation": mode, "records": [spec.rec_dict(r) for r in recs], "mapping": m,
                       "result": [spec.rec_dict(r) for r in spec.snapshot(o[1])] if o[0] == "ret" else outcome})
